@@ -8,7 +8,7 @@ use crate::view::*;
 use serde_json::{json, Value};
 
 pub const POOL: &[&str] = &["alice", "bobby", "carol", "dave", "exec1", "exec2", "appr1", "appr2", "feea", "feeb"];
-pub const RATES: &[&str] = &["0", "0.001", "0.01", "0.015", "0.05", "0.1", "0.25", "0.5", "0.33", "1", "0.0025", "0.125"];
+pub const RATES: &[&str] = &["0", "0.001", "0.01", "0.015", "0.05", "0.1", "0.25", "0.5", "0.33", "1", "0.0025", "0.125", "0.075", "0.2", "0.9", "0.999", "0.0001", "0.3333"];
 
 #[derive(Clone, Debug)]
 pub struct Regime {
@@ -30,7 +30,7 @@ pub struct Regime {
 }
 
 pub const TRADE: Regime = Regime {
-    name: "trade", precs: &[0, 0, 0, 1, 2, 3, 6, 9], ks: &[1, 1, 1, 2, 5, 10], price_mant_max: 40, lots_max: 5,
+    name: "trade", precs: &[0, 0, 0, 0, 1, 1, 2, 3, 4, 6, 9, 18], ks: &[1, 1, 1, 2, 5, 10, 7, 25, 100], price_mant_max: 40, lots_max: 5,
     rates: RATES, fee_pct: 60, hostile_pct: 0, steps: (40, 120), chain_change_pct: 1, modify_pct: 4, create_bias: 0, pool: 10, legacy_at: None, attrs_pct: 40,
 };
 pub const HOSTILE: Regime = Regime { name: "hostile", hostile_pct: 50, chain_change_pct: 3, ..TRADE };
@@ -88,15 +88,15 @@ pub fn gen_cfg(r: &mut Rng, rg: &Regime) -> GenCfg {
         let at = r.below(convs.len() as u64 + 1) as usize;
         convs.insert(at, "base".to_string());
     }
-    let quotes: Vec<String> = (0..1 + r.below(2)).map(|i| format!("q{}", i)).collect();
+    let quotes: Vec<String> = (0..1 + { let n = if r.chance(15) { 3 } else { 2 }; r.below(n) }).map(|i| format!("q{}", i)).collect();
     let pool: Vec<String> = POOL[..rg.pool.min(POOL.len())].iter().map(|s| s.to_string()).collect();
     let mut markers = vec![];
     for d in convs.iter().filter(|c| c.as_str() != "base").chain(quotes.iter()).chain(std::iter::once(&"base".to_string())) {
         markers.push((d.clone(), *r.pick(&[MarkerKind::NoMarker, MarkerKind::Coin, MarkerKind::Restricted])));
     }
-    let mut approvers: Vec<String> = (0..1 + r.below(2)).map(|_| r.pick(&pool).clone()).collect();
+    let mut approvers: Vec<String> = (0..1 + { let n = if r.chance(20) { 4 } else { 2 }; r.below(n) }).map(|_| r.pick(&pool).clone()).collect();
     approvers.dedup();
-    let mut executors: Vec<String> = (0..1 + r.below(2)).map(|_| r.pick(&pool).clone()).collect();
+    let mut executors: Vec<String> = (0..1 + { let n = if r.chance(20) { 4 } else { 2 }; r.below(n) }).map(|_| r.pick(&pool).clone()).collect();
     executors.dedup();
     let ask_fee = if r.chance(rg.fee_pct) { Some((r.pick(&pool).clone(), r.pick(rg.rates).to_string())) } else { None };
     let bid_fee = if r.chance(rg.fee_pct) { Some((r.pick(&pool).clone(), r.pick(rg.rates).to_string())) } else { None };
@@ -132,7 +132,15 @@ pub fn setup_ops(r: &mut Rng, c: &GenCfg) -> Vec<Op> {
         ops.push(Op::SetMarker { denom: d.clone(), kind: *k });
     }
     for a in &c.pool {
-        let names: Vec<String> = if r.chance(85) { vec!["kyc".into(), "acc".into(), "x".into()] } else if r.chance(50) { vec!["kyc".into()] } else { vec![] };
+        // accounts may carry the same attribute name more than once (multi-valued attributes)
+        let names: Vec<String> = match r.below(20) {
+            0..=14 => vec!["kyc".into(), "acc".into(), "x".into()],
+            15 => vec!["kyc".into()],
+            16 => vec!["kyc".into(), "kyc".into()],
+            17 => vec!["acc".into(), "acc".into(), "x".into()],
+            18 => vec!["kyc".into(), "acc".into(), "acc".into(), "kyc".into()],
+            _ => vec![],
+        };
         ops.push(Op::SetAttrs { account: a.clone(), names });
     }
     ops.push(Op::Inst { msg: inst_msg(c) });
@@ -152,6 +160,7 @@ pub fn gen_price(r: &mut Rng, rg: &Regime, prec: u32, size_hint: u128) -> String
     // exact-decimal domain (2^95)
     let cap = (1u128 << 74) / size_hint.max(1);
     let mmax = (rg.price_mant_max as u128).min(cap).max(1);
+    let mmax = if r.chance(12) { (mmax * 125).min(cap).max(1) } else { mmax };
     let m = 1 + r.below128(mmax);
     let sc = if prec == 0 || r.chance(45) { 0 } else { r.below(prec.min(9) as u64 + 1) as u32 };
     fmt_price(m, sc)
@@ -212,14 +221,14 @@ pub fn gen_step(r: &mut Rng, rg: &Regime, w: &World, g: &mut GenState) -> Op {
     }
     if kind < 18 || (asks.is_empty() && kind < 40) {
         let base = if !cfg.convs.is_empty() && r.chance(50) { r.pick(&cfg.convs).clone() } else { cfg.base.clone() };
-        let size = cfg.inc * (1 + r.below(rg.lots_max) as u128);
+        let size = cfg.inc * (1 + { let lm = if r.chance(10) { rg.lots_max * 8 } else { rg.lots_max }; r.below(lm) } as u128);
         let sender = r.pick(&pool).clone();
         let quote = if cfg.quotes.is_empty() { "q0".to_string() } else { r.pick(&cfg.quotes).clone() };
         let id = fresh_id(r, g, &book, true);
         return exec_op(&sender, funds_for(w, &base, size), json!({"create_ask": {"id": id, "base": base, "quote": quote, "price": gen_price(r, rg, cfg.prec as u32, size), "size": size.to_string()}}));
     }
     if kind < 36 || (bids.is_empty() && kind < 60) {
-        let size = cfg.inc * (1 + r.below(rg.lots_max) as u128);
+        let size = cfg.inc * (1 + { let lm = if r.chance(10) { rg.lots_max * 8 } else { rg.lots_max }; r.below(lm) } as u128);
         // bias towards crossing an existing ask
         let price = if !asks.is_empty() && r.chance(45) { r.pick(&asks).price.clone() } else { gen_price(r, rg, cfg.prec as u32, size) };
         let p = match parse_dec(&price) {
@@ -403,9 +412,11 @@ pub fn gen_chain_change(r: &mut Rng, w: &World, pool: &[String]) -> Op {
     if r.chance(15) {
         return Op::SetAttrFail { on: !w.chain.attr_query_fails };
     }
-    let names: Vec<String> = match r.below(3) {
+    let names: Vec<String> = match r.below(6) {
         0 => vec![],
         1 => vec!["kyc".into()],
+        2 => vec!["kyc".into(), "kyc".into()],
+        3 => vec!["acc".into(), "x".into(), "acc".into()],
         _ => vec!["kyc".into(), "acc".into(), "x".into()],
     };
     Op::SetAttrs { account: r.pick(pool).clone(), names }
